@@ -75,17 +75,16 @@ theorem nv_hypotheses_reverse : DepStopsInRange nvDs ∧ (∀ g ∈ nvDs.egress,
   refine ⟨?_, by decide, by decide, by decide, by decide⟩
   intro c hc; rw [h1] at hc; simp at hc; subst hc; decide
 
-/-- ... and of `C04_optimal`: uniform waiting, and an admissible journey (walk 100 s to stop 0,
+/-- ... and of `C04_optimal`: an admissible journey (walk 100 s to stop 0,
     ride trip 5 from 1000 to 1300, walk 200 s from stop 1) that meets every premise -/
 theorem nv_admissible :
-    UniformWait nvDs ∧ (∀ a ∈ nvDs.access, 0 ≤ a.time) ∧
+    (∀ a ∈ nvDs.access, 0 ≤ a.time) ∧
     AdmRev (mkCtx (nvDs.restrict (nvDs.connSetOf (nvDs.scenarioOf nvRev))) nvRev (nvDs.connSetOf (nvDs.scenarioOf nvRev))
         (routerLookup nvDs.access nvRev.maxAccess) (routerLookup nvDs.egress nvRev.maxEgress) (-1) nvRev.time)
       (nvDs.connSetOf (nvDs.scenarioOf nvRev)).rev ⟨0, 100, 80⟩ ⟨0, 1, 1000, 1300, 5, 1, true, true, -1⟩ ⟨0, 1, 1000, 1300, 5, 1, true, true, -1⟩ := by
   have h1 : nvDs.conns = [⟨0, 1, 1000, 1300, 5, 1, true, true, -1⟩] := by decide
   have h2 : (nvDs.connSetOf (nvDs.scenarioOf nvRev)).rev = [⟨0, 1, 1000, 1300, 5, 1, true, true, -1⟩] := by decide
-  refine ⟨?_, by decide, ?_⟩
-  · intro c hc; rw [h1] at hc; simp at hc; subst hc; decide
+  refine ⟨by decide, ?_⟩
   · refine ⟨by decide, rfl, by rw [h2]; simp, by rw [h2]; simp, rfl, Nat.le_refl _, rfl, rfl, by decide, 1800, ?_, by decide⟩
     exact RReach.egress ⟨1, 200, 150⟩ (by decide)
 
